@@ -315,8 +315,11 @@ func init() {
 			}
 		}
 		// registry sub-path joining (FinalSourceAddr)
-		for _, s1 := range subs {
-			for _, s2 := range subs {
+		// sub-paths may hold characters a LOCAL address may not (':' and '\\'): the join must not go
+		// through the local-address parser (seed C11-e)
+		joinSubs := append(append([]string{}, subs...), "mods/v1:2", "a\\b/c", "x:y", "..data/v2", ".hidden")
+		for _, s1 := range joinSubs {
+			for _, s2 := range joinSubs {
 				regStr := "example.com/foo/bar/baz"
 				if s1 != "" {
 					regStr += "//" + s1
